@@ -301,6 +301,8 @@ impl<NumericTypes: EvalexprNumericTypes> Context for HashMapContext<NumericTypes
     type NumericTypes = NumericTypes;
 
     fn get_value(&self, identifier: &str) -> Option<&Value<Self::NumericTypes>> {
+        #[cfg(feature = "verif-hooks")]
+        crate::verif::point(crate::verif::Site::CtxGetValue);
         self.variables.get(identifier)
     }
 
@@ -309,6 +311,8 @@ impl<NumericTypes: EvalexprNumericTypes> Context for HashMapContext<NumericTypes
         identifier: &str,
         argument: &Value<Self::NumericTypes>,
     ) -> EvalexprResultValue<Self::NumericTypes> {
+        #[cfg(feature = "verif-hooks")]
+        crate::verif::point(crate::verif::Site::CtxCallFunction);
         if let Some(function) = self.functions.get(identifier) {
             function.call(argument)
         } else {
@@ -339,6 +343,8 @@ impl<NumericTypes: EvalexprNumericTypes> ContextWithMutableVariables
         identifier: String,
         value: Value<Self::NumericTypes>,
     ) -> EvalexprResult<(), NumericTypes> {
+        #[cfg(feature = "verif-hooks")]
+        crate::verif::point(crate::verif::Site::CtxSetValue);
         if let Some(existing_value) = self.variables.get_mut(&identifier) {
             if ValueType::from(&existing_value) == ValueType::from(&value) {
                 *existing_value = value;
